@@ -83,6 +83,14 @@ TYPES = [
     typ("tblk", src=[M % "convert_to_block"], dies=False),
     # --- defined in harness/pd_ext_c04.c
     typ("buffer", opt=("max_size", "0", "4096")),
+    # flow definition B = definition A plus one attribute (a strict superset), and the other way round: the
+    # "same definition" shortcut of the output helper must not take a superset for the same
+    typ("idem_superset", "thru", src=[], key="idem", alloc=["new p0 idem"], fd={"A": "bA", "B": "bA+"}),
+    typ("idem_subset", "thru", src=[], key="idem", alloc=["new p0 idem"], fd={"A": "bA+", "B": "bA"}),
+    typ("setflowdef_superset", "thru", src=[], key="setflowdef", alloc=["new p0 setflowdef"],
+        optfd=("dict", "none", "k=1", "k=2"), fd={"A": "bA", "B": "bA+"}),
+    typ("skip_superset", "thru", src=[], key="skip", alloc=["new p0 skip"], opt=("offset", "0", "4"),
+        fd={"A": "bA+", "B": "bA++"}),
     typ("buffer_pump", src=[], key="buffer", alloc=["new p0 buffer", "opt p0 set max_size 4096"], env=PUMP, opt=("max_size", "4096", "376")),
     typ("disblo", src=[M % "discard_blocking"], env=PUMP),
     typ("time_limit", "thru", env=PUMP, opt=("limit", "0", "27000"), dies=False),
@@ -266,7 +274,10 @@ def setfd_line(T, n):
 
 
 def fd_defstring(v):
-    return v[2:].split()[0] if v.startswith("x:") else "block.%s." % v[1:]
+    if v.startswith("x:"):
+        return v[2:].split()[0]
+    body = v[1:].rstrip("+")
+    return "block.%s.%s" % (body, "+" * (len(v) - 1 - len(body)))      # as harness fd_name() prints it
 
 
 def concretise(T, steps):
